@@ -616,6 +616,31 @@ func (x *Exec) havocLoopState(fr *frame, li *loopInfo, cur *State, r string) {
 			// "point" at an object that is only allocated later in the body)
 			x.refBound = cur.Alloc
 			for _, m := range li.spec.Modifies {
+				// *p and &local: the pointee / the variable is well typed at the head as well
+				var ptrE ast.Expr
+				switch u := m.Expr.(type) {
+				case *ast.StarExpr:
+					ptrE = u.X
+				case *ast.UnaryExpr:
+					if u.Op == token.AND {
+						ptrE = u
+					}
+				}
+				if ptrE != nil {
+					func() {
+						defer func() {
+							if e := recover(); e != nil {
+								if _, ok := e.(specErr); !ok {
+									panic(e)
+								}
+							}
+						}()
+						pv := env.eval(ptrE)
+						if _, isPtr := pv.Ty.Underlying().(*types.Pointer); isPtr && len(pv.V) >= 2 {
+							x.validFacts(cur.Mem, deref(pv.Ty), pv.V[0].T, pv.V[1].T, r, 1)
+						}
+					}()
+				}
 				if sel, ok := m.Expr.(*ast.SelectorExpr); ok {
 					func() {
 						defer func() {
